@@ -12,7 +12,6 @@ import (
 	"net/http/httptest"
 	"sort"
 	"strings"
-	"sync"
 	"testing"
 
 	"connectrpc.com/conformance/internal/verifkit"
